@@ -332,6 +332,10 @@ def random_program(rng, maxops=10, maxlen=40, start=None):
         ops.append(op)
         sim_apply(sim, op)
         if len(sim.x) < 4:
+            # a cubic / spline resampling of the 2- or 3-sample series that is left: SciPy refuses it (the library documents no
+            # minimum length); whatever the outcome, the object must stay well-formed (seed C09k)
+            if len(sim.x) >= 2 and rng.random() < 0.6:
+                ops.append({"k": "interpolate_n", "n": rng.choice([5, 9, len(sim.x)]), "method": rng.choice(["spline", "cubic"])})
             break
     return {"fn": "whist", "start": start_record(rng, xs, ys), "ops": ops}
 
